@@ -72,7 +72,12 @@ def gen_case(r, info, avoid):
     # import tree of depth <= 3
     shape = r.choice(['flat', 'one', 'two', 'chain', 'tree'])
     def module(tag, imports, n=None):
-        parts = gen_module(r, tag, names, attrs, avoid, n if n is not None else r.choice([1, 2, 3, 5, 8]), imports, bool(imports))
+        if n is None:
+            # an intermediate module (one that imports others) is sometimes a pure aggregator: no template rule of its own, or only a named template
+            n = r.choice([0, 0, 1, 2, 3, 5]) if imports and tag != 'M' else r.choice([1, 2, 3, 5, 8])
+        parts = gen_module(r, tag, names, attrs, avoid, n, imports, bool(imports))
+        if n == 0 and r.random() < 0.5:
+            parts.append('<xsl:template name="n%s"/><xsl:variable name="v%s" select="1"/>' % (tag, tag))
         return parts
     if shape == 'flat':
         main = module('M', [])
